@@ -103,13 +103,18 @@ def gjk_nesterov_accelerated(
     # normalize_support_direction is for soem reason only needed when both colliders are an mesh.
     normalize_support_direction = type(collider0) == MeshGraph and type(collider1) == MeshGraph
 
-    # Infaltion is only used with spheres and capsules
+    # Infaltion is only used with spheres and capsules and only if both
+    # colliders have a specialised support function: the generic support
+    # functions that are used otherwise already include the radius.
     inflation = 0.0
-    if type(collider0) == Sphere or type(collider0) == Capsule:
-        inflation += collider0.radius
+    specialised_types = (Sphere, Capsule, Box, Ellipsoid, Cylinder)
+    if (type(collider0) in specialised_types
+            and type(collider1) in specialised_types):
+        if type(collider0) == Sphere or type(collider0) == Capsule:
+            inflation += collider0.radius
 
-    if type(collider1) == Sphere or type(collider1) == Capsule:
-        inflation += collider1.radius
+        if type(collider1) == Sphere or type(collider1) == Capsule:
+            inflation += collider1.radius
 
     upper_bound += inflation
 
